@@ -53,6 +53,9 @@ type c16Ev struct {
 	K   string `json:"k"`           // add | flush | wait
 	S   int    `json:"s,omitempty"` // add: byte size (chunk executor)
 	Y   int    `json:"y,omitempty"` // runtime.Gosched() calls before the operation (order at equal instants)
+	// Rep > 1: the add is repeated Rep times back to back by the same goroutine (expanded by
+	// c16Case.effective before the case is run; used to reach the default thresholds cheaply)
+	Rep int `json:"rep,omitempty"`
 }
 
 type c16Case struct {
@@ -65,6 +68,58 @@ type c16Case struct {
 	// requires every task to be executed already (tick trigger alone must do it).
 	// exec-parallel: the case checks that the flusher goroutine is gone at the end.
 	Q bool `json:"q,omitempty"`
+	// NoMax / NoIv: the size option (WithBulkTasks / WithChunkBytes) resp. the interval option
+	// (WithBulkInterval / WithFlushInterval) is NOT passed to the constructor; the executor is
+	// then judged by the documented defaults (bulk 1000 tasks, chunk 1 MB, interval 1 s).
+	NoMax bool `json:"nomax,omitempty"`
+	NoIv  bool `json:"noiv,omitempty"`
+}
+
+// documented defaults: lib/executors defaultBulkTasks, defaultChunkSize, defaultFlushInterval
+const (
+	c16DefaultBulkTasks  = 1000
+	c16DefaultChunkBytes = 1024 * 1024
+	c16DefaultIvMs       = 1000
+)
+
+// effective returns the case the oracle judges: omitted options replaced by the
+// documented defaults, repeated adds expanded. Idempotent.
+func (c c16Case) effective() c16Case {
+	if c.NoMax {
+		switch c.Kind {
+		case "bulk":
+			c.Max = c16DefaultBulkTasks
+		case "chunk":
+			c.Max = c16DefaultChunkBytes
+		}
+	}
+	if c.NoIv && c.Kind != "periodical" {
+		c.IvMs = c16DefaultIvMs
+	}
+	var ev []c16Ev
+	for _, e := range c.Ev {
+		n := 1
+		if e.K == "add" && e.Rep > 1 {
+			n = e.Rep
+		}
+		e.Rep = 0
+		for k := 0; k < n; k++ {
+			ev = append(ev, e)
+			e.Gap, e.Y = 0, 0
+		}
+	}
+	c.Ev = ev
+	return c
+}
+
+// c16IDs prints long batches abbreviated.
+type c16IDs []int
+
+func (ids c16IDs) String() string {
+	if len(ids) <= 16 {
+		return fmt.Sprint([]int(ids))
+	}
+	return fmt.Sprintf("%v...(%d tasks)...%v", []int(ids[:6]), len(ids), []int(ids[len(ids)-3:]))
 }
 
 func (c c16Case) interval() time.Duration { return time.Duration(c.IvMs) * time.Millisecond }
@@ -91,7 +146,7 @@ type c16Op struct {
 }
 
 type c16Batch struct {
-	ids        []int
+	ids        c16IDs
 	start, end int64 // logical clock, end == 0: callback not finished
 	tstart     time.Duration
 	tend       time.Duration
@@ -217,10 +272,24 @@ func c16New(c c16Case, exec func(ids []int)) c16Subject {
 	}
 	switch c.Kind {
 	case "bulk":
-		be := executors.NewBulkExecutor(anyExec, executors.WithBulkTasks(c.Max), executors.WithBulkInterval(c.interval()))
+		var opts []executors.BulkOption
+		if !c.NoMax {
+			opts = append(opts, executors.WithBulkTasks(c.Max))
+		}
+		if !c.NoIv {
+			opts = append(opts, executors.WithBulkInterval(c.interval()))
+		}
+		be := executors.NewBulkExecutor(anyExec, opts...)
 		return c16Subject{add: func(id, _ int) { _ = be.Add(id) }, flush: be.Flush, wait: be.Wait}
 	case "chunk":
-		ce := executors.NewChunkExecutor(anyExec, executors.WithChunkBytes(c.Max), executors.WithFlushInterval(c.interval()))
+		var opts []executors.ChunkOption
+		if !c.NoMax {
+			opts = append(opts, executors.WithChunkBytes(c.Max))
+		}
+		if !c.NoIv {
+			opts = append(opts, executors.WithFlushInterval(c.interval()))
+		}
+		ce := executors.NewChunkExecutor(anyExec, opts...)
 		return c16Subject{add: func(id, size int) { _ = ce.Add(id, size) }, flush: ce.Flush, wait: ce.Wait}
 	default:
 		pe := executors.NewPeriodicalExecutor(c.interval(), &c16Container{max: c.Max, exec: exec})
@@ -249,7 +318,7 @@ func c16Run(c c16Case, s *c16State, par bool) (fail string) {
 			s.mu.Unlock()
 			return
 		}
-		b := &c16Batch{ids: append([]int(nil), ids...), start: s.tick(), tstart: now(), harness: s.harness[h]}
+		b := &c16Batch{ids: append(c16IDs(nil), ids...), start: s.tick(), tstart: now(), harness: s.harness[h]}
 		k := s.ncb
 		s.ncb++
 		s.batches = append(s.batches, b)
@@ -546,29 +615,36 @@ func c16Check(c c16Case, s *c16State, res *c16Result, par bool) {
 	}
 	// 2. order inside a batch, 3. batches are runs of the addition order, 4. bounds
 	for bi, b := range s.batches {
-		for p, x := range b.ids {
-			for _, y := range b.ids[p+1:] {
-				// y is behind x although Add(y) had returned before Add(x) was called
-				if added[y].ret != 0 && added[y].ret < added[x].call {
-					failf("batch %d %v: task %d precedes task %d, but Add(%d) returned before Add(%d) was called%s", bi, b.ids, x, y, y, x, c16History(s))
-				}
+		// order: no task may stand behind a task whose Add was called after its own Add had returned
+		// (scan from the right keeping the earliest Add-return seen so far)
+		minRet, minRetID := int64(0), -1
+		for p := len(b.ids) - 1; p >= 0; p-- {
+			x := b.ids[p]
+			if minRetID >= 0 && minRet < added[x].call {
+				failf("batch %d %v: task %d precedes task %d, but Add(%d) returned before Add(%d) was called%s", bi, b.ids, x, minRetID, minRetID, x, c16History(s))
+			}
+			if r := added[x].ret; r != 0 && (minRetID < 0 || r < minRet) {
+				minRet, minRetID = r, x
 			}
 		}
-		for _, x := range b.ids {
-			if added[x].ret == 0 {
-				continue
+		// contiguity: a task y outside the batch must not have been added strictly between two of
+		// its members x, z (Add(x) returned < Add(y) called, Add(y) returned < Add(z) called)
+		xr, xid, zc, zid := int64(0), -1, int64(0), -1
+		for _, id := range b.ids {
+			if r := added[id].ret; r != 0 && (xid < 0 || r < xr) {
+				xr, xid = r, id
 			}
-			for _, z := range b.ids {
-				if x == z || added[z].call < added[x].ret {
+			if cl := added[id].call; zid < 0 || cl > zc {
+				zc, zid = cl, id
+			}
+		}
+		if xid >= 0 && zid >= 0 {
+			for y, oy := range added {
+				if where[y] == b || oy.ret == 0 {
 					continue
 				}
-				for y, oy := range added {
-					if where[y] == b || oy.ret == 0 {
-						continue
-					}
-					if added[x].ret < oy.call && oy.ret < added[z].call {
-						failf("batch %d %v holds tasks %d and %d but not task %d, which was added strictly between them (it is in %v)%s", bi, b.ids, x, z, y, where[y].ids, c16History(s))
-					}
+				if xr < oy.call && oy.ret < zc {
+					failf("batch %d %v holds tasks %d and %d but not task %d, which was added strictly between them (it is in %v)%s", bi, b.ids, xid, zid, y, where[y].ids, c16History(s))
 				}
 			}
 		}
@@ -665,8 +741,14 @@ func c16Check(c c16Case, s *c16State, res *c16Result, par bool) {
 			firstAdd = o.tcall
 		}
 	}
-	for _, b := range s.batches {
+	for bi, b := range s.batches {
 		acts = append(acts, act{b.tstart, false, -2}, act{b.tend, false, -2})
+		// 6. triggers: a batch below the threshold that the background flusher executes can only be
+		// a tick flush, and the first tick of a flusher comes one interval after the Add that started it
+		if !b.harness && len(b.ids) > 0 && !c.atThreshold(b.ids) && firstAdd >= 0 && b.tstart < firstAdd+I {
+			failf("batch %d %v (below the threshold %d) was executed by the background flusher at %v, less than one interval (%v) after the first Add (%v): neither the threshold nor a tick nor Flush/Wait triggered it%s",
+				bi, b.ids, c.Max, b.tstart, I, firstAdd, c16History(s))
+		}
 	}
 	sort.SliceStable(acts, func(i, j int) bool { return acts[i].t < acts[j].t })
 	tickBase := firstAdd // instant at which the current flusher (and its ticker) started
@@ -787,6 +869,7 @@ func c16Verdict(c c16Case, s *c16State, res *c16Result) (v kit.Verdict) {
 
 // c16Interp: one fresh bubble per case.
 func c16Interp(t *testing.T, c c16Case) (v kit.Verdict) {
+	c = c.effective()
 	res := &c16Result{classes: map[string]bool{c.Kind: true}}
 	s := &c16State{}
 	bubbleDone := make(chan kit.BubbleResult, 1)
@@ -852,6 +935,7 @@ var (
 
 // c16InterpPar: real clock, real parallelism, no bubble.
 func c16InterpPar(t *testing.T, c c16Case) (v kit.Verdict) {
+	c = c.effective()
 	res := &c16Result{classes: map[string]bool{c.Kind: true}}
 	s := &c16State{}
 	settle := func() bool { // wait until only the test's own goroutines are left
@@ -1103,6 +1187,187 @@ func c16Enumerate(maxAdds int, maxes []int, lats [][]int) func(yield func(c16Cas
 	}
 }
 
+// ---------------------------------------------------------------- executors created in sequence
+
+// c16SeqCase: 1..3 executors created one after the other in the same process
+// (same bubble), each with its own option SET (every option independently
+// passed or omitted) and its own small timeline; each is judged by its own
+// configuration, an omitted option meaning the documented default.
+type c16SeqCase struct {
+	Ex []c16Case `json:"ex"`
+}
+
+func c16GenSeqOne(rt *rapid.T) c16Case {
+	c := c16Case{}
+	c.Kind = rapid.SampledFrom([]string{"bulk", "bulk", "bulk", "chunk", "chunk", "periodical"}).Draw(rt, "kind")
+	switch c.Kind {
+	case "bulk":
+		c.NoMax = rapid.Bool().Draw(rt, "nomax")
+		c.NoIv = rapid.Bool().Draw(rt, "noiv")
+		c.Max = rapid.SampledFrom([]int{1, 2, 3, 5, 1500, 5000}).Draw(rt, "max")
+	case "chunk":
+		c.NoMax = rapid.Bool().Draw(rt, "nomax")
+		c.NoIv = rapid.Bool().Draw(rt, "noiv")
+		c.Max = rapid.SampledFrom([]int{1, 7, 40, 4 << 20}).Draw(rt, "limit")
+	default:
+		c.Max = rapid.IntRange(0, 3).Draw(rt, "max")
+	}
+	c.IvMs = rapid.SampledFrom([]int{10, 50, 250, 5000}).Draw(rt, "iv")
+	eff := c.effective()
+	ng := rapid.IntRange(1, 3).Draw(rt, "ng")
+	n := rapid.IntRange(1, 10).Draw(rt, "nev")
+	burst := -1 // one burst of adds that reaches a large threshold
+	if c.Kind == "bulk" && eff.Max >= 1000 && eff.Max <= 1500 && rapid.IntRange(0, 2).Draw(rt, "burst") > 0 {
+		burst = rapid.IntRange(0, n-1).Draw(rt, "burstAt")
+	}
+	for i := 0; i < n; i++ {
+		e := c16Ev{G: rapid.IntRange(0, ng-1).Draw(rt, "g")}
+		e.K = rapid.SampledFrom([]string{"add", "add", "add", "add", "add", "flush", "wait"}).Draw(rt, "k")
+		switch rapid.IntRange(0, 9).Draw(rt, "gapclass") {
+		case 0, 1, 2, 3, 4, 5:
+		case 6, 7:
+			e.Gap = 1
+		case 8:
+			e.Gap = rapid.IntRange(2, 6).Draw(rt, "gap")
+		default:
+			e.Gap = rapid.IntRange(22, 30).Draw(rt, "gap")
+		}
+		if i == burst {
+			e.K = "add"
+			e.Rep = rapid.IntRange(eff.Max+1, eff.Max+1500).Draw(rt, "rep")
+		}
+		if e.K == "add" && c.Kind == "chunk" {
+			if eff.Max >= c16DefaultChunkBytes {
+				e.S = rapid.SampledFrom([]int{0, 10, 300000, 500000, 700000, 1048576}).Draw(rt, "size")
+			} else {
+				e.S = rapid.IntRange(0, 50).Draw(rt, "size")
+			}
+		}
+		e.Y = rapid.SampledFrom([]int{0, 0, 1, 2}).Draw(rt, "y")
+		c.Ev = append(c.Ev, e)
+	}
+	nl := rapid.IntRange(0, 2).Draw(rt, "nlat")
+	for i := 0; i < nl; i++ {
+		c.Lat = append(c.Lat, rapid.SampledFrom([]int{0, 0, 1, 3}).Draw(rt, "lat"))
+	}
+	c.Q = rapid.Bool().Draw(rt, "q")
+	return c
+}
+
+func c16GenSeq(rt *rapid.T) c16SeqCase {
+	n := rapid.IntRange(1, 3).Draw(rt, "nex")
+	sc := c16SeqCase{}
+	for i := 0; i < n; i++ {
+		sc.Ex = append(sc.Ex, c16GenSeqOne(rt))
+	}
+	return sc
+}
+
+func c16InterpSeq(t *testing.T, sc c16SeqCase) (v kit.Verdict) {
+	classes := map[string]bool{}
+	var fail, known string
+	nontrivial := false
+	var states []*c16State
+	bubbleDone := make(chan kit.BubbleResult, 1)
+	go func() {
+		returned := false
+		defer func() {
+			if !returned {
+				bubbleDone <- kit.BubbleResult{Panic: "the synctest sub-test was aborted (data race reported by the race detector, see the log)"}
+			}
+		}()
+		r := kit.Bubble(t, func() {
+			defer func() {
+				for _, s := range states {
+					s.mu.Lock()
+					s.dead = true
+					s.mu.Unlock()
+				}
+			}()
+			// Independence of cases: two executors that are never used, created with every option
+			// passed explicitly and equal to the documented default. For code that keeps option
+			// defaults per constructor call this changes nothing; it keeps a fault that lets options
+			// leak into process-wide defaults from carrying over from EARLIER cases, so that a
+			// failing case (and its shrunk replay) contains the executor that caused the leak.
+			executors.NewBulkExecutor(func([]any) {}, executors.WithBulkTasks(c16DefaultBulkTasks), executors.WithBulkInterval(c16DefaultIvMs*time.Millisecond))
+			executors.NewChunkExecutor(func([]any) {}, executors.WithChunkBytes(c16DefaultChunkBytes), executors.WithFlushInterval(c16DefaultIvMs*time.Millisecond))
+			explicitMax, explicitIv := map[string]bool{}, map[string]bool{}
+			for i, spec := range sc.Ex {
+				c := spec.effective()
+				if c.Kind != "periodical" {
+					if c.NoMax {
+						classes["default-size"] = true
+						if explicitMax[c.Kind] {
+							classes["default-size-after-explicit"] = true
+							nontrivial = true
+						}
+					} else {
+						explicitMax[c.Kind] = true
+					}
+					if c.NoIv {
+						classes["default-interval"] = true
+						if explicitIv[c.Kind] {
+							classes["default-interval-after-explicit"] = true
+							nontrivial = true
+						}
+					} else {
+						explicitIv[c.Kind] = true
+					}
+				}
+				s := &c16State{}
+				states = append(states, s)
+				res := &c16Result{classes: map[string]bool{c.Kind: true}}
+				what := fmt.Sprintf("executor #%d (%s, size option passed=%v -> %d, interval option passed=%v -> %v): ", i, c.Kind, !c.NoMax && c.Kind != "periodical", c.Max, !c.NoIv || c.Kind == "periodical", c.interval())
+				if f := c16Run(c, s, false); f != "" {
+					fail = what + f
+					return
+				}
+				c16Settle(c, s)
+				s.mu.Lock()
+				c16Check(c, s, res, false)
+				s.mu.Unlock()
+				for k := range res.classes {
+					classes[k] = true
+				}
+				if c.NoMax && res.classes["batch-at-threshold"] {
+					classes["default-threshold-reached"] = true
+				}
+				if res.fail != "" {
+					fail, known = what+res.fail, res.known
+					return
+				}
+			}
+		})
+		returned = true
+		bubbleDone <- r
+	}()
+	var br kit.BubbleResult
+	select {
+	case br = <-bubbleDone:
+	case <-time.After(c16Watchdog):
+		c16Watchdog = 2 * time.Second
+		return kit.Verdict{Classes: []string{"watchdog"},
+			Fail: "case did not finish within 10 s of real time: a goroutine stays blocked on a sync.Mutex for ever (synctest cannot see that) or virtual time runs away"}
+	}
+	for k := range classes {
+		v.Classes = append(v.Classes, k)
+	}
+	sort.Strings(v.Classes)
+	v.NonTrivial = nontrivial
+	v.Fail, v.Known = fail, known
+	if v.Fail == "" || v.Known != "" {
+		switch {
+		case br.Hang:
+			v.Fail, v.Known = "hang: every goroutine of the bubble is blocked for ever: "+br.Raw, ""
+		case br.Leak:
+			v.Fail, v.Known = fmt.Sprintf("leak: %d idle intervals after the last executor's final Wait a goroutine (a background flusher) is still alive at bubble exit", c16IdleRounds), ""
+		case br.Panic != "":
+			v.Fail, v.Known = "panic: "+br.Panic, ""
+		}
+	}
+	return v
+}
+
 // ---------------------------------------------------------------- tests
 
 // c16Repeat: replaying a file (bin/check --replay) runs the case up to 200 times
@@ -1149,4 +1414,10 @@ func TestVerif_C16_parallel(t *testing.T) {
 	c16BaseGoroutines = runtime.NumGoroutine()
 	kit.Run(t, "C16", "exec-parallel", kit.Opts{Quick: 1200, Thorough: 32000}, c16GenPar,
 		c16Repeat(func(c c16Case) kit.Verdict { return c16InterpPar(t, c) }))
+}
+
+func TestVerif_C16_sequence(t *testing.T) {
+	defer runtime.GOMAXPROCS(runtime.GOMAXPROCS(1))
+	kit.Run(t, "C16", "exec-sequence", kit.Opts{Quick: 1500, Thorough: 64000}, c16GenSeq,
+		func(sc c16SeqCase) kit.Verdict { return c16InterpSeq(t, sc) })
 }
